@@ -198,3 +198,75 @@ def rand_decl(rng, nmax=6, env_rate=0.0, required_rate=0.1, kinds="omt", groups=
 
 def decl_id(decl):
     return repr(sorted((k, repr(v)) for k, v in decl.items() if k != "label"))
+
+
+def spellings(o, value=None, rng=None):
+    """all command-line spellings of one occurrence of an option (value-taking: with value)"""
+    n, s = o["name"], o.get("short")
+    out = []
+    if o["kind"] == "t":
+        out.append([b"--" + n])
+        if s:
+            out.append([b"-" + s])
+    else:
+        v = value if value is not None else b"val"
+        out.append([b"--" + n + b"=" + v])
+        if not v.startswith(b"-"):
+            out.append([b"--" + n, v])
+        if s:
+            out.append([b"-" + s + b"=" + v])
+            if not v.startswith(b"-"):
+                out.append([b"-" + s, v])
+    return out
+
+
+def defect_vectors(rng, decl):
+    """mostly valid vectors with exactly one defect of a named rejection condition,
+    surrounded by benign arguments at random positions: list of (reason, argv)"""
+    benign = benign_tokens(decl)
+    res = []
+
+    def around(parts):
+        """interleave benign fillers between the given token groups"""
+        v = []
+        for g in parts:
+            for _ in range(rng.randint(0, 2)):
+                if benign:
+                    b = rng.choice(benign)
+                    if b != b"p":
+                        v.append(b)
+            v.extend(g)
+        for _ in range(rng.randint(0, 1)):
+            if benign:
+                b = rng.choice(benign)
+                if b != b"p":
+                    v.append(b)
+        return v
+
+    for o in decl["opts"]:
+        sp = spellings(o)
+        if o["kind"] == "o":
+            a, b = rng.choice(sp), rng.choice(sp)
+            res.append(("option-given-twice", around([a, b])))
+        if o["kind"] in "om":
+            key = [b"--" + o["name"]] if rng.random() < 0.5 or not o.get("short") else [b"-" + o["short"]]
+            nxt = rng.choice([[], [b"--"], [b"--" + UNDECL_LONG], [b"-5"], key])
+            res.append(("missing-value", around([[]]) + key + nxt))
+        if o["kind"] == "t":
+            on = rng.choice(sp)
+            res.append(("toggle-with-value", around([[on[0] + b"=" + rng.choice([b"", b"1", b"x"])]])))
+            if o.get("rev"):
+                off = [b"--no-" + o["name"]]
+                res.append(("both-polarities", around([on, off])))
+                res.append(("both-polarities", around([off, on])))
+                res.append((None, around([off, off])))
+            else:
+                res.append(("no-prefix-not-reversible", around([[b"--no-" + o["name"]]])))
+    lim = decl.get("pos")
+    if lim != "inf":
+        k = (lim or 0) + 1
+        res.append(("too-many-positionals", around([[b"p%d" % i] for i in range(k)])))
+        res.append(("too-many-positionals", around([[b"--"]] + [[b"-p%d" % i] for i in range(k)])))
+    res.append(("unknown-long", around([[b"--" + UNDECL_LONG]])))
+    res.append(("unknown-letter", around([[b"-" + UNDECL_LETTER]])))
+    return res
